@@ -9,7 +9,7 @@
    the Spec oracle only (notes/C11.md). *)
 From Coq Require Import List ZArith.
 From RtoscV Require Import Pretty.Tok Pretty.FloatFmt Pretty.PrintModel Pretty.ScanModel
-  Pretty.Grammar Pretty.PrettyProofs.
+  Pretty.Grammar Pretty.PrettyProofs Pretty.RunProofs.
 Import ListNotations.
 Local Open Scope Z_scope.
 
@@ -17,7 +17,7 @@ Local Open Scope Z_scope.
    sentence; the whole text is consumed; the values are the denotation *)
 Theorem C11_agree_denotes_partial : forall (dec2f dec2d : list Z -> Z) s T,
   Forall wf_word s -> spell s = Some T ->
-  count_printed_arg_vals T = Ok (true, Z.of_nat (length s)) /\
+  count_printed_arg_vals dec2f dec2d T = Ok (true, Z.of_nat (length s)) /\
   scan_arg_vals dec2f dec2d T (Z.of_nat (length s)) = Ok (denote s, []).
 Proof. exact sentences_agree. Qed.
 
@@ -26,8 +26,8 @@ Proof. exact sentences_agree. Qed.
 Theorem C11_simulation_partial : forall (dec2f dec2d : list Z -> Z) o v cols t w c,
   good_val v -> print_scalar o v cols = Some (t, w, c) ->
   forall rest, rest_ok rest ->
-    (forall f ll ib, skip_next f (t ++ rest) ll true ib = Ok (rest, 1, av_type v)) /\
-    (forall f before, scan_arg_val dec2f dec2d f (t ++ rest) before true = Ok ([v], rest)).
+    (forall f ll fe ib, skip_next dec2f dec2d (S f) (t ++ rest) ll fe ib = Ok (rest, 1, av_type v)) /\
+    (forall f before nb fe, scan_arg_val dec2f dec2d (S f) (t ++ rest) before nb fe = Ok ([v], rest)).
 Proof. exact (fun a b o v cols t w c Hg Hp => proj1 (proj1 (scalar_tok a b o v cols t w c Hg Hp))). Qed.
 
 (* sentences that differ only in white space (and in where strings are split) *)
@@ -40,10 +40,27 @@ Proof. exact sentences_ws_invariant. Qed.
 
 (* printing the scanned values (any options) and scanning again *)
 Theorem C11_reprint_partial : forall (dec2f dec2d : list Z -> Z) s T o T' w,
+  compress o = false ->
   Forall wf_word s -> spell s = Some T ->
   print_arg_vals o (denote s) 0 = Some (T', w) ->
   scan_arg_vals dec2f dec2d T' (Z.of_nat (length s)) = scan_arg_vals dec2f dec2d T (Z.of_nat (length s)).
 Proof. exact sentences_reprint. Qed.
+
+(* NxA repetitions: sentences whose elements are values or "NxV" *)
+Theorem C11_repetitions_agree_partial : forall (dec2f dec2d : list Z -> Z) n v t,
+  1 <= n < 2 ^ 31 -> tokof dec2f dec2d v t ->
+  elof dec2f dec2d [VRep n 0; v] (dec_nat n ++ 120 :: t).
+Proof. exact elof_rep. Qed.
+
+Theorem C11_elements_agree_partial : forall (dec2f dec2d : list Z -> Z) els T,
+  elang dec2f dec2d els T ->
+  count_printed_arg_vals dec2f dec2d T = Ok (true, total_slots els) /\
+  scan_arg_vals dec2f dec2d T (total_slots els) = Ok (concat els, []).
+Proof. exact elements_agree. Qed.
+
+Theorem C11_elements_nonvacuous : forall (dec2f dec2d : list Z -> Z),
+  elang dec2f dec2d [[VRep 5 0; VI 7]; [VT]] (dec_nat 5 ++ 120 :: print_d 7 ++ [32] ++ kw_true).
+Proof. exact ex_elements. Qed.
 
 Theorem C11_nonvacuous :
   Forall wf_word ex_sentence /\ exists T, spell ex_sentence = Some T.
